@@ -86,7 +86,8 @@ theorem scan_guard_translated (spec : MsgSpec) (bm : Bitmap) (n i : Nat) (src : 
   simp only [message_unpack_skips, List.any_cons, List.any_nil, id, Bool.or_false] at hs
   simp only [message_unpack_guards, List.any_cons, List.any_nil, id, Bool.or_false, Bool.and_eq_true,
     Bool.not_eq_true', Option.isSome_eq_false_iff, Option.isNone_iff_eq_none] at h
-  simp [scan, hs, h.1, h.2]
+  obtain ⟨⟨_, hset⟩, hnone⟩ := h
+  simp [scan, hs, hset, hnone]
 
 open MsgSpec in
 /-- a bit that is not set (and is not a continuation bit) is stepped over -/
